@@ -422,6 +422,18 @@ def make_objects(pgpy, U):
         m = PGPMessage.new('signed message')
         m |= U['C'].sign(m, created=datetime(2021, 3, 1, tzinfo=timezone.utc))
         out.append(('msg', 'C', m))
+        # several issuers: a message to two recipients / with two signers must select whichever of them is loaded
+        encs = [lb for lb in ('A', 'B', 'D', 'E') if len(U[lb].subkeys)]
+        for a, b in zip(encs, encs[1:]):
+            from pgpy.constants import SymmetricKeyAlgorithm as _SK
+            sk = _SK.AES256.gen_key()
+            e2 = U[a].pubkey.encrypt(PGPMessage.new('secret of two'), cipher=_SK.AES256, sessionkey=sk)
+            e2 = U[b].pubkey.encrypt(e2, cipher=_SK.AES256, sessionkey=sk)
+            out.append(('enc2', a + '+' + b, e2))
+        m2 = PGPMessage.new('doubly signed message')
+        m2 |= U['A'].sign(m2, created=datetime(2021, 3, 1, tzinfo=timezone.utc))
+        m2 |= U['B'].sign(m2, created=datetime(2021, 3, 2, tzinfo=timezone.utc))
+        out.append(('msg2', 'A+B', m2))
     return out
 
 
@@ -442,11 +454,16 @@ def select_by_object(ctx, sim, case):
                         good = bool(k.verify(o))
                     elif good and kind == 'enc' and not k.is_public:
                         good = k.decrypt(o).message == 'secret of ' + lb
+                    elif good and kind == 'enc2' and not k.is_public:
+                        good = k.decrypt(o).message == 'secret of two'
         except (KeyError, AttributeError):
             got, good = '-', True
         c = dict(case, selector=[kind, lb])
         ctx.case('select-by-object', (kind, lb, got != '-', len(case['ops'])))
-        ctx.expect_eq('select-by-object', 'key selected by message / signature differs from the model', c, got, want)
+        if kind in ('enc2', 'msg2'):
+            pass   # which of several loaded issuers is taken depends on set iteration order: only the property oracle applies
+        else:
+            ctx.expect_eq('select-by-object', 'key selected by message / signature differs from the model', c, got, want)
         if not good:
             ctx.fail('select-by-object', 'key selected by message / signature did not issue / cannot decrypt it', c)
         # the issuer is known to the keyring  <=>  something is selected
